@@ -7,7 +7,7 @@ import Sigc.SlotGAttr
 namespace Sigc.SlotG
 
 /-- some live owning functor copy shares the holder of `v` -/
-def Owned (s : State) (v : Nat) : Prop := ∃ r R fid t, s.reps r = some R ∧ R.fn = some (.own fid v t)
+def Owned (s : State) (v : Nat) : Prop := ∃ r R f, s.reps r = some R ∧ R.fn = some f ∧ f.owns = some v
 /-- some live `sref` functor copy refers to `v` -/
 def Pinned (s : State) (v : Nat) : Prop := ∃ r R fid, s.reps r = some R ∧ R.fn = some (.sref fid v)
 
@@ -27,15 +27,19 @@ structure Inv (s : State) : Prop where
   regUniq : ∀ r1 R1 r2 R2 c, s.reps r1 = some R1 → s.reps r2 = some R2 → c ∈ R1.cbs → c ∈ R2.cbs → r1 = r2
   cbsNodup : ∀ r R, s.reps r = some R → R.cbs.Nodup
   parentOk : ∀ r R p v, s.reps r = some R → R.parent = some p → repOf s v = some r →
-    ∃ P fid, s.reps p = some P ∧ P.fn = some (.sref fid v)
+    ∃ P f, s.reps p = some P ∧ P.fn = some f ∧ f.ref = some v
   trkReg : ∀ r R f t, s.reps r = some R → R.fn = some f → f.trk = some t →
     ∃ T, s.trks t = some T ∧ (r, true) ∈ T.entries
   trkEnt : ∀ t T r, s.trks t = some T → (r, true) ∈ T.entries →
     ∃ R f, s.reps r = some R ∧ R.fn = some f ∧ f.trk = some t
   trkNodup : ∀ t T, s.trks t = some T → (T.entries.map Prod.fst).Nodup
   refOk : ∀ r R fid v, s.reps r = some R → R.fn = some (.sref fid v) →
-    (∃ V, s.slots v = some V) ∧ ¬ Owned s v
-  ownOk : ∀ r R fid v t, s.reps r = some R → R.fn = some (.own fid v t) → ∃ V, s.slots v = some V
+    v < anonBase ∧ (∃ V, s.slots v = some V) ∧ ¬ Owned s v
+  ownOk : ∀ r R fid v t, s.reps r = some R → R.fn = some (.own fid v t) →
+    v < anonBase ∧ ∃ V, s.slots v = some V
+  nestOk : ∀ r R fid v d, s.reps r = some R → R.fn = some (.nest fid v d) →
+    v = anonBase + r ∧ ∃ V, s.slots v = some V
+  anonBound : ∀ v V, s.slots v = some V → anonBase ≤ v → v < anonBase + s.nextRep
   repBound : ∀ r R, s.reps r = some R → r < s.nextRep
 
 theorem repOf_eq {s : State} {v r : Nat} : repOf s v = some r ↔ ∃ V, s.slots v = some V ∧ V.rep = some r := by
@@ -137,9 +141,9 @@ macro_rules
          have hA4 := ($h).cbsConn; have hA5 := ($h).cbsNodup; have hA6 := ($h).parentOk
          have hA7 := ($h).trkReg; have hA8 := ($h).trkEnt; have hA9 := ($h).trkNodup
          have hA10 := ($h).refOk; have hA11 := ($h).ownOk; have hA12 := ($h).repBound
-         have hA13 := ($h).regUniq
+         have hA13 := ($h).regUniq; have hA14 := ($h).nestOk; have hA15 := ($h).anonBound
          try st_simp
-         first | done | grind [$ps,*]))
+         first | done | grind [$ps,*] | grind (instances := 4000) [$ps,*]))
 
 /-- all clauses of `Inv _` by `inv_clause` -/
 syntax "inv_auto " ident (" with" " [" Lean.Parser.Tactic.grindParam,* "]")? : tactic
@@ -157,15 +161,19 @@ structure InvS (s : State) : Prop where
   cbsConn : ∀ r R c, s.reps r = some R → c ∈ R.cbs → ∃ v, s.conns c = some (some v) ∧ repOf s v = some r
   cbsNodup : ∀ r R, s.reps r = some R → R.cbs.Nodup
   parentOk : ∀ r R p v, s.reps r = some R → R.parent = some p → repOf s v = some r →
-    ∃ P fid, s.reps p = some P ∧ P.fn = some (.sref fid v)
+    ∃ P f, s.reps p = some P ∧ P.fn = some f ∧ f.ref = some v
   trkReg : ∀ r R f t, s.reps r = some R → R.fn = some f → f.trk = some t →
     ∃ T, s.trks t = some T ∧ (r, true) ∈ T.entries
   trkEnt : ∀ t T r, s.trks t = some T → (r, true) ∈ T.entries →
     ∃ R f, s.reps r = some R ∧ R.fn = some f ∧ f.trk = some t
   trkNodup : ∀ t T, s.trks t = some T → (T.entries.map Prod.fst).Nodup
   refOk : ∀ r R fid v, s.reps r = some R → R.fn = some (.sref fid v) →
-    (∃ V, s.slots v = some V) ∧ ¬ Owned s v
-  ownOk : ∀ r R fid v t, s.reps r = some R → R.fn = some (.own fid v t) → ∃ V, s.slots v = some V
+    v < anonBase ∧ (∃ V, s.slots v = some V) ∧ ¬ Owned s v
+  ownOk : ∀ r R fid v t, s.reps r = some R → R.fn = some (.own fid v t) →
+    v < anonBase ∧ ∃ V, s.slots v = some V
+  nestOk : ∀ r R fid v d, s.reps r = some R → R.fn = some (.nest fid v d) →
+    v = anonBase + r ∧ ∃ V, s.slots v = some V
+  anonBound : ∀ v V, s.slots v = some V → anonBase ≤ v → v < anonBase + s.nextRep
   repBound : ∀ r R, s.reps r = some R → r < s.nextRep
 
 theorem InvS.inv {s : State} (h : InvS s) : Inv s where
@@ -186,6 +194,8 @@ theorem InvS.inv {s : State} (h : InvS s) : Inv s where
   trkNodup := h.trkNodup
   refOk := h.refOk
   ownOk := h.ownOk
+  nestOk := h.nestOk
+  anonBound := h.anonBound
   repBound := h.repBound
 
 /-- one clause of `InvS _` from `h : InvS s` -/
@@ -203,8 +213,9 @@ macro_rules
          have hA4 := ($h).cbsConn; have hA5 := ($h).cbsNodup; have hA6 := ($h).parentOk
          have hA7 := ($h).trkReg; have hA8 := ($h).trkEnt; have hA9 := ($h).trkNodup
          have hA10 := ($h).refOk; have hA11 := ($h).ownOk; have hA12 := ($h).repBound
+         have hA14 := ($h).nestOk; have hA15 := ($h).anonBound
          try st_simp
-         first | done | grind [$ps,*]))
+         first | done | grind [$ps,*] | grind (instances := 4000) [$ps,*]))
 
 /-- all clauses of `InvS _` by `invs_clause` -/
 syntax "invs_auto " ident (" with" " [" Lean.Parser.Tactic.grindParam,* "]")? : tactic
